@@ -5,11 +5,14 @@ package engines
 import (
 	"bytes"
 	"fmt"
+	"os"
+	"path/filepath"
 	"strings"
 	"time"
 
 	"github.com/hashicorp/nodeenrollment"
 	"github.com/hashicorp/nodeenrollment/registration"
+	"github.com/hashicorp/nodeenrollment/storage/file"
 	"github.com/hashicorp/nodeenrollment/rotation"
 	"github.com/hashicorp/nodeenrollment/types"
 	"github.com/mr-tron/base58"
@@ -62,11 +65,12 @@ func propC06(r *kernel.Run) {
 			r.Violate("not-recoverable", "token-material-stored/"+field, "stored token record contains %s in field %s", name, field)
 		}
 	}
+	var hist []string
+	note := func(x string) { hist = append(hist, x); r.Tracef("%s", x) }
 	var toks []*simToken
 	nodes := []*Ident{NewIdent("A"), NewIdent("B"), NewIdent("C")}
 	registered := map[string]bool{}
 	nops := tp.Range(4, 25)
-	var hist []string
 	create := func() {
 		withState := tp.Draw(2) == 0
 		opts := w.Opts()
@@ -103,10 +107,15 @@ func propC06(r *kernel.Run) {
 		}
 		w.St.AddSecret(fmt.Sprintf("token%d-hmac-key", t.idx), tn.HmacKeyBytes)
 		w.St.AddSecret(fmt.Sprintf("token%d-payload", t.idx), payload)
-		hist = append(hist, fmt.Sprintf("create t%d state=%v", t.idx, withState))
+		note(fmt.Sprintf("create t%d state=%v", t.idx, withState))
 		r.Count("ops.create_token", 1)
 	}
 	create()
+	for i := tp.Draw(3); i > 0; i-- {
+		r.Sleep(tp.DurLog(time.Nanosecond, max+1))
+		create()
+	}
+	var kinds []string
 	for op := 0; op < nops; op++ {
 		switch k := tp.Draw(10); {
 		case k == 0 && len(toks) < 4:
@@ -138,7 +147,7 @@ func propC06(r *kernel.Run) {
 			ok := err == nil && resp != nil && len(resp.EncryptedNodeCredentials) > 0
 			created := len(after) > len(before)
 			desc := fmt.Sprintf("use t%d by %s age=%v max=%v enrolledBefore=%d storedBefore=%v transplanted=%v bitFlipped=%v nodeRegistered=%v wrapper=%v backend=%s", t.idx, n.Name, age, max, t.enrolled, storedBefore, t.broken, t.flipped, registered[n.KeyId], sw, backend)
-			hist = append(hist, desc+fmt.Sprintf(" -> ok=%v err=%s", ok, shortErr(err)))
+			note(desc+fmt.Sprintf(" -> ok=%v err=%s", ok, shortErr(err)))
 			r.Count("ops.use_token", 1)
 			switch {
 			case registered[n.KeyId]:
@@ -189,7 +198,11 @@ func propC06(r *kernel.Run) {
 					r.Violate("single-use", "used-token-still-stored", "%s", desc)
 				}
 			}
-			r.FP("use", liveByModel, registered[n.KeyId], t.broken, age > max, age == max, sw, backend)
+			kinds = append(kinds, fmt.Sprintf("u%v%v%v", liveByModel, t.broken || t.flipped, ok))
+			if len(kinds) > 4 {
+				kinds = kinds[1:]
+			}
+			r.FP("use", liveByModel, registered[n.KeyId], t.broken, t.flipped, age > max, age == max, sw, backend, storedBefore, kinds)
 			r.StateFP(liveByModel, t.attempts, t.enrolled, t.broken, age > max)
 		case k <= 6: // age: land on the boundary of some token
 			t := toks[tp.Draw(len(toks))]
@@ -199,7 +212,7 @@ func propC06(r *kernel.Run) {
 			}
 			if d := time.Until(target); d > 0 {
 				r.Sleep(d)
-				hist = append(hist, fmt.Sprintf("sleep %v", d))
+				note(fmt.Sprintf("sleep %v", d))
 				r.Count("ops.clock_jump", 1)
 			}
 		default: // tamper with the stored record, keeping it sealed
@@ -208,15 +221,40 @@ func propC06(r *kernel.Run) {
 			if err := w.Inner.Load(w.Ctx, raw); err != nil {
 				continue
 			}
-			kind := tp.Draw(3)
+			kind := tp.Draw(4)
 			if !sw {
 				kind = 0 // without a wrapper the marshaled time is not sealed; only the advisory clear field is edited
+			}
+			if kind == 3 {
+				// disk adversary on the file back end: the whole stored record of a newer token is copied over this token's file
+				fs, ok := w.Inner.(*file.Storage)
+				var donor *simToken
+				for _, o := range toks {
+					if o != t && o.created.After(t.created) {
+						donor = o
+					}
+				}
+				if !ok || donor == nil {
+					continue
+				}
+				draw := &types.ServerLedActivationToken{Id: donor.id}
+				if err := w.Inner.Load(w.Ctx, draw); err != nil {
+					continue
+				}
+				b, _ := proto.Marshal(draw)
+				if err := os.WriteFile(filepath.Join(fs.BaseDir(), "serverledactivationtokens", t.id), b, 0o600); err != nil {
+					r.HarnessErr("overwrite token file: %v", err)
+				}
+				t.broken = true
+				r.Count("fault.tamper.whole_record_of_newer_token_copied", 1)
+				note(fmt.Sprintf("tamper t%d: whole record of t%d copied over its file", t.idx, donor.idx))
+				continue
 			}
 			switch kind {
 			case 0:
 				raw.CreationTime = timestamppb.New(time.Now().Add(tp.DurLog(time.Second, 1000*time.Hour)))
 				r.Count("fault.tamper.clear_creation_time", 1)
-				hist = append(hist, fmt.Sprintf("tamper t%d: clear creation_time moved later", t.idx))
+				note(fmt.Sprintf("tamper t%d: clear creation_time moved later", t.idx))
 			case 1:
 				// transplant the sealed creation time of a newer token
 				donor := &simToken{}
@@ -236,7 +274,7 @@ func propC06(r *kernel.Run) {
 				raw.CreationTime = draw.CreationTime
 				t.broken = true
 				r.Count("fault.tamper.transplant_sealed_time", 1)
-				hist = append(hist, fmt.Sprintf("tamper t%d: sealed creation time of t%d transplanted", t.idx, donor.idx))
+				note(fmt.Sprintf("tamper t%d: sealed creation time of t%d transplanted", t.idx, donor.idx))
 			case 2:
 				if len(raw.CreationTimeMarshaled) == 0 {
 					continue
@@ -245,7 +283,10 @@ func propC06(r *kernel.Run) {
 				raw.CreationTimeMarshaled[i/8] ^= 1 << (i % 8)
 				t.flipped = true
 				r.Count("fault.tamper.flip_sealed_bit", 1)
-				hist = append(hist, fmt.Sprintf("tamper t%d: bit %d of sealed creation time flipped", t.idx, i))
+				note(fmt.Sprintf("tamper t%d: bit %d of sealed creation time flipped", t.idx, i))
+			}
+			if raw.Id != t.id {
+				continue // this file already holds another token's whole record; leave it
 			}
 			if err := w.Inner.Store(w.Ctx, raw); err != nil {
 				r.HarnessErr("tamper store: %v", err)
